@@ -9,6 +9,7 @@ import (
 
 	"gogucheck/core"
 	"gogucheck/owner"
+	"gogucheck/path"
 )
 
 // c16Files are the anchor files of C16; heap.FromSlice and heap.Sort are added by name.
@@ -72,6 +73,92 @@ func paramName(fn *ssa.Function, i int) string {
 	return fmt.Sprintf("#%d", i)
 }
 
+// sliceParamOrigin: the slice-typed parameter v is a re-slice of (through re-slicing,
+// appends onto it and merges), or nil.
+func sliceParamOrigin(v ssa.Value) *ssa.Parameter {
+	seen := map[ssa.Value]bool{}
+	var found *ssa.Parameter
+	var walk func(x ssa.Value)
+	walk = func(x ssa.Value) {
+		if x == nil || seen[x] || found != nil {
+			return
+		}
+		seen[x] = true
+		switch y := x.(type) {
+		case *ssa.Parameter:
+			if _, ok := y.Type().Underlying().(*types.Slice); ok {
+				found = y
+			}
+		case *ssa.Slice:
+			walk(y.X)
+		case *ssa.Phi:
+			for _, e := range y.Edges {
+				walk(e)
+			}
+		case *ssa.Call:
+			if b, ok := y.Call.Value.(*ssa.Builtin); ok && b.Name() == "append" {
+				walk(y.Call.Args[0])
+			}
+		case *ssa.ChangeType:
+			walk(y.X)
+		case *ssa.UnOp:
+			if al, ok := y.X.(*ssa.Alloc); ok {
+				for _, rf := range *al.Referrers() {
+					if st, ok := rf.(*ssa.Store); ok && st.Addr == ssa.Value(al) {
+						walk(st.Val)
+					}
+				}
+			}
+		}
+	}
+	walk(v)
+	return found
+}
+
+// sliceWrittenOrReturned: the slice value is stored into, copied into, appended to,
+// handed to a call or returned.
+func sliceWrittenOrReturned(sl ssa.Value) bool {
+	seen := map[ssa.Value]bool{}
+	var used func(v ssa.Value) bool
+	used = func(v ssa.Value) bool {
+		if seen[v] {
+			return false
+		}
+		seen[v] = true
+		for _, rf := range *v.Referrers() {
+			switch u := rf.(type) {
+			case *ssa.IndexAddr:
+				for _, r2 := range *u.Referrers() {
+					if st, ok := r2.(*ssa.Store); ok && st.Addr == ssa.Value(u) {
+						return true
+					}
+				}
+			case *ssa.Return:
+				return true
+			case *ssa.Call:
+				if b, ok := u.Call.Value.(*ssa.Builtin); ok && (b.Name() == "len" || b.Name() == "cap") {
+					continue
+				}
+				return true
+			case *ssa.Store:
+				if u.Val == v {
+					return true
+				}
+			case *ssa.Phi:
+				if used(u) {
+					return true
+				}
+			case *ssa.Slice:
+				if used(u) {
+					return true
+				}
+			}
+		}
+		return false
+	}
+	return used(sl)
+}
+
 func init() {
 	register(&Check{
 		ID: "C16",
@@ -79,7 +166,7 @@ func init() {
 			"(storage of parameter i, reference loaded out of parameter i, fresh storage); summaries of in-module callees are instantiated at call sites, closures are analysed inline. " +
 			"OW1: no store, map update/delete, copy, sort or append reaches storage of a parameter (append onto a parameter counts as a write: it may fill the caller's spare capacity) - except in the " +
 			"frozen in-place table and the recognised no-op range self-store; OW2: every returned container, and every container stored inside a returned fresh container, is fresh storage (views Drop/Chunk excepted, " +
-			"and they must not write); OW3: in-place helpers write only their one designated argument. Strings are immutable, so string helpers are discharged by type. Together these imply the statement structurally; " +
+			"and they must not write); OW3: in-place helpers write only their one designated argument; OW4: no helper re-slices an argument up to its capacity and writes or returns that part (the spare capacity behind an argument is the caller's); GS1/GS2: the helpers keep no mutable package-level state (pools, shared buffers) and start no goroutines. Strings are immutable, so string helpers are discharged by type. Together these imply the statement structurally; " +
 			"mutation by user callbacks and element-level sharing are not decided.",
 		Assumptions: []string{"go/ssa faithful to the source", "append/copy/re-slice semantics of Go", "closed table of external callees (strings, regexp, unicode, fmt, errors, math, reflect, strconv, math/rand, time: read-only; sort.*: writes its first argument)",
 			"user callbacks do not mutate the arguments"},
@@ -164,6 +251,46 @@ func init() {
 					r.Undecided(core.Diag{Rule: "OW0", Func: name, Object: "external " + strings.Fields(u)[2], Pos: p.Pos(fn.Pos()), Reason: u})
 				}
 			}
+			// OW4: no helper re-slices an argument beyond its length (s[len(s):cap(s)],
+			// s[:cap(s)]) and writes or returns that part: the spare capacity behind an
+			// argument belongs to the caller (the argument may be a prefix of a longer slice)
+			for _, fn := range scope {
+				var all []*ssa.Function
+				var addf func(f *ssa.Function)
+				addf = func(f *ssa.Function) {
+					all = append(all, f)
+					for _, a := range f.AnonFuncs {
+						addf(a)
+					}
+				}
+				addf(fn)
+				for _, f := range all {
+					for _, in := range path.Instrs(f) {
+						sl, ok := in.(*ssa.Slice)
+						if !ok || sl.High == nil {
+							continue
+						}
+						hc, ok := sl.High.(*ssa.Call)
+						if !ok {
+							continue
+						}
+						if b, ok := hc.Call.Value.(*ssa.Builtin); !ok || b.Name() != "cap" {
+							continue
+						}
+						if prm := sliceParamOrigin(sl.X); prm != nil && sliceParamOrigin(hc.Call.Args[0]) == prm {
+							used := sliceWrittenOrReturned(sl)
+							r.Obligation("OW4", !used, map[string]any{"rule": "OW4", "function": p.FuncName(fn), "at": p.InstrPos(sl), "ok": !used})
+							if used {
+								r.Violation(core.Diag{Rule: "OW4", Func: p.FuncName(fn), Object: "spare capacity of arg " + prm.Name(), Pos: p.InstrPos(sl),
+									Reason: "the argument is re-sliced up to its capacity and that part is written or returned: storage behind the argument's length belongs to the caller (the argument may be a prefix of a longer slice) and is not part of the one argument an in-place helper may touch"})
+							}
+						}
+					}
+				}
+			}
+			// GS1/GS2: no helper keeps mutable package-level state (pooled or shared
+			// buffers let a later or concurrent call alter a result already handed out)
+			hygiene(rc{p, r}, c16Files...)
 			// the frozen tables must still name existing functions
 			for n := range inPlace {
 				if p.Func(n) == nil {
